@@ -257,6 +257,10 @@ def decide(prop, tier, seed, t0):
                 # the property promises an expansion for this input (the model has one and the predicate applies to it);
                 # the implementation panicked or reported an error instead
                 failing.append(r)
+            elif (not det) and prop in ("C06", "C07") and not r.get("agree") and r.get("class") == "tokens" and \
+                    " impl " in " %s " % r.get("model", "") and " impl " not in " %s " % r.get("real", ""):
+                # the model's expansion implements the trait for `::entrait::Impl<T>`; the implementation's contains no impl at all
+                failing.append(r)
             elif prop == "C15" and r.get("class") == "error" and not r.get("agree") and r.get("real") is not None and \
                     r.get("real") != "PANIC" and not str(r.get("real")).startswith(":: core :: compile_error"):
                 # the model rejects this input with a diagnostic (for the documented misuses: with their specific message, theorem
